@@ -244,6 +244,8 @@ impl RWorld {
 #[derive(Clone, Copy, Debug, PartialEq, Eq)]
 pub enum Kind {
     Bank,
+    /// a bank send without coins: it must still reach the bank module, whose rejection is what the caller sees
+    BankEmpty,
     Staking,
     Distribution,
     Custom,
@@ -253,11 +255,11 @@ pub enum Kind {
     Any,
 }
 
-pub const KINDS: [Kind; 8] = [Kind::Bank, Kind::Staking, Kind::Distribution, Kind::Custom, Kind::Ibc, Kind::Gov, Kind::Stargate, Kind::Any];
+pub const KINDS: [Kind; 9] = [Kind::Bank, Kind::BankEmpty, Kind::Staking, Kind::Distribution, Kind::Custom, Kind::Ibc, Kind::Gov, Kind::Stargate, Kind::Any];
 
 pub fn module_of(k: Kind) -> &'static str {
     match k {
-        Kind::Bank => "bank",
+        Kind::Bank | Kind::BankEmpty => "bank",
         Kind::Staking => "staking",
         Kind::Distribution => "distribution",
         Kind::Custom => "custom",
@@ -270,6 +272,7 @@ pub fn module_of(k: Kind) -> &'static str {
 pub fn make_msg(k: Kind, n: u64, to: &str) -> CosmosMsg<PMsg> {
     match k {
         Kind::Bank => CosmosMsg::Bank(BankMsg::Send { to_address: to.to_string(), amount: vec![coin(1 + n as u128 % 3, "ua")] }),
+        Kind::BankEmpty => CosmosMsg::Bank(BankMsg::Send { to_address: format!("{}-{}", to, n), amount: vec![] }),
         Kind::Staking => CosmosMsg::Staking(StakingMsg::Delegate { validator: format!("val{}", n), amount: coin(n as u128 + 1, "ua") }),
         Kind::Distribution => CosmosMsg::Distribution(DistributionMsg::SetWithdrawAddress { address: format!("addr{}", n) }),
         Kind::Custom => CosmosMsg::Custom(PMsg { tag: n as u32, fail: false }),
@@ -403,7 +406,7 @@ pub fn exec_cell(w: &mut RWorld, k: Kind, origin: Origin, ent: Ent, mode: RMode,
     let sibling_module = sibling.as_ref().map(|_| if k == Kind::Ibc { "gov" } else { "ibc" });
     let (top, known_sender, emit_tag) = build(w, origin, ent, &msg, mode, sibling.as_ref(), (n as u32) * 100 + 5000);
     let module = module_of(k);
-    let module_fails = module != "bank" && w.hub.fails(module);
+    let module_fails = (module != "bank" && w.hub.fails(module)) || k == Kind::BankEmpty;
     let sibling_fails = sibling_module.map(|m| w.hub.fails(m)).unwrap_or(false);
     let before = rawstate::dump(w.app.storage());
     w.hub.log.borrow_mut().clear();
